@@ -40,8 +40,21 @@ def _ops(regime):
     op_sub = st.builds(lambda g, c, x: {"gap": g, "op": "sub", "cb": c, "ctx": x}, gap, cb, ctx)
     op_unsub = st.builds(lambda g, c, x: {"gap": g, "op": "unsub", "cb": c, "ctx": x}, gap, cb, ctx)
     op_probe = st.builds(lambda g: {"gap": g, "op": "probe"}, gap)
-    return st.lists(st.one_of(op_add, op_add, op_add, op_add, op_rm, op_rm, op_sub, op_unsub, op_probe),
-                    min_size=2, max_size=12)
+    rnd = st.lists(st.one_of(op_add, op_add, op_add, op_add, op_rm, op_rm, op_sub, op_unsub, op_probe),
+                   min_size=2, max_size=12)
+    # structured histories: several operations executed inside ONE invocation of a timer callback while a
+    # neighbour registered in the same instant (same deadline) is due in the same pass of the job thread
+    def nest(p0, per_x, a, x, inner, tail):
+        ops = [{"gap": 0.0, "op": "add", "cb": a, "p": p0, "per": True, "ctx": -1},
+               {"gap": 0.0, "op": "add", "cb": x, "p": p0, "per": per_x, "ctx": -1}]
+        for o in inner:
+            ops.append(dict(o, gap=0.0, ctx=a))
+        return ops + tail
+    inner = st.lists(st.one_of(op_rm, op_add, op_rm, op_add), min_size=1, max_size=3)
+    p_ok = [q for q in per if regime != "mixed" or q >= 0.05]      # no fast periodic timers across multi-second gaps (cost)
+    pattern = st.builds(nest, st.sampled_from(p_ok), st.booleans(), st.integers(0, NCB - 1), st.integers(0, NCB - 1), inner,
+                        st.lists(st.one_of(op_add, op_rm, op_probe), max_size=4))
+    return st.one_of(rnd, rnd, pattern)
 
 
 def _strategy():
